@@ -57,6 +57,8 @@ def run():
         "_expand_activate_element": find_def(ex, "_expand_activate_element"),
         "ColangTransformer._flow_def": find_def(tr, "_flow_def", "ColangTransformer"),
         "eval_expression": find_def(ev, "eval_expression"),
+        "_get_reference_activated_flow_instance": find_def(sm, "_get_reference_activated_flow_instance"),
+        "_process_internal_events_without_default_matchers": find_def(sm, "_process_internal_events_without_default_matchers"),
     }
     # reserved keys: what start_event puts in a StartFlow event besides the flow's own arguments
     start_keys = _str_keys_of_dicts(fns["FlowState.start_event"])
@@ -86,6 +88,29 @@ def run():
     if other or direct < 2:
         raise TieBroken("create_flow_instance no longer evaluates declared defaults by direct calls eval_expression(<x>.default_value_expr, {}) "
                         f"(direct calls: {direct}, other consumers: {other}): the model's allocDefaults (a new object per instance, empty context) is out of date")
+    # the "same parameters" comparison (`Bind.paramMatches`): one `matched = <named>` and two `matched |= <positional> / <default>`
+    # per parameter, the default clause comparing with the declared default evaluated in the empty context, a `break` on the
+    # first mismatch; the StartFlow branch consults the lookup exactly once
+    ref = fns["_get_reference_activated_flow_instance"]
+    assigns = [n for n in ast.walk(ref) if isinstance(n, ast.Assign) and any(isinstance(t, ast.Name) and t.id == "matched" for t in n.targets)]
+    augs = [n for n in ast.walk(ref) if isinstance(n, ast.AugAssign) and isinstance(n.target, ast.Name) and n.target.id == "matched"]
+    if len(assigns) != 1 or len(augs) != 2 or not all(isinstance(a.op, ast.BitOr) for a in augs):
+        raise TieBroken(f"_get_reference_activated_flow_instance: {len(assigns)} `matched =` / {len(augs)} `matched |=` clauses "
+                        "(the model's paramMatches has named, positional, default)")
+    dflt_cmp = [n for a in augs for n in ast.walk(a) if isinstance(n, ast.Compare) and any(
+        isinstance(c, ast.Call) and isinstance(c.func, ast.Name) and c.func.id == "eval_expression" and len(c.args) == 2
+        and isinstance(c.args[0], ast.Attribute) and c.args[0].attr == "default_value_expr" and isinstance(c.args[1], ast.Dict) and not c.args[1].keys
+        for c in ast.walk(n))]
+    if len(dflt_cmp) != 1:
+        raise TieBroken("_get_reference_activated_flow_instance: the clause for an omitted parameter no longer compares the running instance's "
+                        "value with eval_expression(<param>.default_value_expr, {}) (model: paramMatches, default clause)")
+    n_cmp = sum(1 for a in assigns + augs for n in ast.walk(a) if isinstance(n, ast.Compare) and any(isinstance(o, ast.Eq) for o in n.ops))
+    if n_cmp != 3:
+        raise TieBroken(f"_get_reference_activated_flow_instance: {n_cmp} `==` comparisons in the matched clauses, the model has three")
+    calls = [n for n in ast.walk(fns["_process_internal_events_without_default_matchers"])
+             if isinstance(n, ast.Call) and isinstance(n.func, ast.Name) and n.func.id == "_get_reference_activated_flow_instance"]
+    if len(calls) != 1:
+        raise TieBroken(f"_process_internal_events_without_default_matchers consults _get_reference_activated_flow_instance {len(calls)} times (model startDecision: once)")
     # restart of an activated flow: start_event hands `self.arguments` on (all of them on an unrepaired tree)
     if "self.arguments" not in ast.unparse(fns["FlowState.start_event"]):
         raise TieBroken("FlowState.start_event no longer builds the StartFlow arguments from self.arguments")
